@@ -870,6 +870,48 @@ def rel_type_selection(repo, tier):
 
 
 # =====================================================================================
+# ODF lengths -> pixels (width / height of every ODF picture), round 6: contracts/c14_length.py
+# =====================================================================================
+def odf_length(repo, tier):
+    from pyvc import verify
+    from pyvc.contracts import Registry
+    from pyvc.exctypes import Universe
+    from contracts import c14_length as L
+    qual = "_odf_length_to_px"
+    base = f"C14/data_types.py::{qual}"
+    oid = f"{base}/ensures#pixels-at-96-dpi-for-every-absolute-unit"
+    try:
+        mod = loader.module(DT, repo)
+        fn = mod.functions.get(qual)
+        if fn is None:
+            return {"obligations": [], "functions": [], "undecided": [{"obligation": f"{DT}::{qual}", "why": "contract-target-missing"}]}
+        reg = Registry()
+        for c in contracts(reg):
+            reg.add(c)
+        names = L.pattern_names(mod)
+        if not names:
+            g = ground_obligation(oid, False, "the module's length pattern is not the recognised `number [unit]` expression", DT, kind="ensures", definite=False)
+            g["function"] = f"{DT}::{qual}"
+            return confirm_natively({"obligations": [g], "functions": [dict(mod.fn_info(qual), obligations=1)]}, repo)
+        ex = type("LengthExecutorHere", (L.LengthExecutor,), {"PATTERNS": frozenset(names)})(mod, reg, Universe(repo))
+        c = FnContract(target=f"{DT}::{qual}", params=[("length", p_str())], ensures=[("pixels-at-96-dpi-for-every-absolute-unit", L.spec)], raises=[],
+                       note="CSS absolute lengths at 96 dpi; float rounding within 1/2 + 1e-9 relative")
+        ex.contract = c
+        ex.oid_prefix = base
+        got, _cov = verify.generate(ex, c, mod, fn)
+        obls = []
+        for k, ob in got.items():
+            d = verify.discharge(ob, None, getattr(ex, "witness_terms", {}))
+            d.update(function=f"{DT}::{qual}")
+            obls.append(d)
+        return confirm_natively({"obligations": obls, "functions": [dict(mod.fn_info(qual), obligations=len(obls))]}, repo)
+    except Exception as e:  # noqa  -- outside the subset: undecided, the native grid decides
+        g = ground_obligation(oid, False, f"not executable: {type(e).__name__}: {e}"[:300], DT, kind="ensures", definite=False)
+        g["function"] = f"{DT}::{qual}"
+        return confirm_natively({"obligations": [g], "functions": []}, repo)
+
+
+# =====================================================================================
 # (c) numbering, (d) bytes / content type / pixel size dataflow, order of traversal  (AST, back end `dataflow`)
 # =====================================================================================
 PDF = EX + "pdf/pdf_extractor.py"
@@ -2323,7 +2365,7 @@ def seq_lemmas(repo, tier):
     return {"obligations": out, "functions": []}
 
 
-EXTRA = [_site_runner(i) for i in range(len(SITES))] + [image_sites, sniffers_agree, seq_lemmas, pdf_content_type, rel_type_selection]
+EXTRA = [_site_runner(i) for i in range(len(SITES))] + [image_sites, sniffers_agree, seq_lemmas, pdf_content_type, rel_type_selection, odf_length]
 
 
 def lemmas():
